@@ -25,6 +25,7 @@ class T:
 
 INT, REAL, BOOL, STR = T('int'), T('real'), T('bool'), T('str')
 NONE = T('none')
+FP = T('fp')                 # IEEE-754 binary64 (used only where rounding / NaN behaviour is the property)
 TRANS = T('trans')            # a transition tuple (label|probability, target): see DESIGN 2.3 / engine docstring
 
 
@@ -89,6 +90,9 @@ def sort(t):
         r = BoolSort()
     elif k == 'str':
         r = StringSort()
+    elif k == 'fp':
+        from z3 import Float64
+        r = Float64()
     elif k == 'trans':
         d = Datatype('Trans')
         d.declare('mkT', ('lab', StringSort()), ('prob', RealSort()), ('tgt', IntSort()))
@@ -139,6 +143,9 @@ def default(t):
         return BoolVal(False)
     if k == 'str':
         return StringVal("")
+    if k == 'fp':
+        from z3 import FPVal, Float64
+        return FPVal(0.0, Float64())
     if k == 'trans':
         return sort(t).mkT(StringVal(""), RealVal(0), IntVal(0))
     if k == 'tup':
@@ -158,11 +165,23 @@ def empty(t):
     return S(t).mk(K(IntSort(), default(t.a[0])), IntVal(0))
 
 
+def _is_mk(v, t):
+    from z3 import is_app
+    try:
+        return is_app(v) and v.decl().eq(S(t).mk)
+    except Exception:
+        return False
+
+
 def L_arr(v, t):
+    if _is_mk(v, t):            # accessor of a constructor term: return the component (smaller terms, better E-matching)
+        return v.arg(0)
     return S(t).arr(v)
 
 
 def L_len(v, t):
+    if _is_mk(v, t):
+        return v.arg(1)
     return S(t).len(v)
 
 
@@ -182,6 +201,8 @@ def L_lit(t, xs):
 
 
 def tup_get(v, t, i):
+    if _is_mk(v, t):
+        return v.arg(i)
     return getattr(S(t), f'f{i}')(v)
 
 
